@@ -104,14 +104,41 @@ func prepareTool(r *Run) (dir, bin string, err error) {
 }
 
 func runT(r *Run, s *TSpec) error {
+	tot, err := runTRaw(r, s)
+	if err != nil || tot == nil {
+		return err
+	}
+	ev := map[string]any{
+		"evaluations":         tot.Evaluations,
+		"distinct_nontrivial": tot.Nontrivial,
+		"rule":                s.Rule,
+		"samples":             tot.Samples,
+		"class_distribution":  tot.Tags,
+		"excluded_known":      tot.Excluded,
+		"replays_run":         len(tot.Replayed),
+		"native_fuzz_runs":    tot.Evaluations - tot.Evaluations + len(tot.Inconcl),
+		"exhaustive":          false,
+	}
+	delete(ev, "native_fuzz_runs")
+	if err := r.WriteEvidence(&Evidence{Coverage: ev, Assumptions: s.Assumptions}); err != nil {
+		return err
+	}
+	if tot.Nontrivial < 2 && len(r.violations) == 0 {
+		r.Infra("only %d non-trivial cases were explored", tot.Nontrivial)
+	}
+	return nil
+}
+
+// runTRaw runs the test shards and returns the aggregated summary (nil in replay mode).
+func runTRaw(r *Run, s *TSpec) (*tSummary, error) {
 	ti := tierIdx(r)
 	_, bin, err := prepareTool(r)
 	if err != nil {
-		return err
+		return nil, err
 	}
 	pigeon := filepath.Join(r.Work, "pigeon")
 	if err := batch.BuildPigeon(r.Repo, pigeon); err != nil {
-		return err
+		return nil, err
 	}
 	shards := s.Shards[ti]
 	if shards <= 0 {
@@ -223,38 +250,18 @@ func runT(r *Run, s *TSpec) error {
 		}
 	}
 	if replayOnly {
-		return nil
+		return nil, nil
 	}
 
 	// native coverage-guided fuzzing (thorough tier): crashers become replay files
-	fuzzRuns := 0
 	if s.Fuzz != "" && !r.Quick() {
-		fuzzRuns = runNativeFuzz(r, s, pigeon)
+		tot.Tags["native_fuzz_campaigns"] = runNativeFuzz(r, s, pigeon)
 	}
-
 	sort.SliceStable(tot.Samples, func(i, j int) bool { return fmt.Sprint(tot.Samples[i]) < fmt.Sprint(tot.Samples[j]) })
 	if len(tot.Samples) > 8 {
 		tot.Samples = tot.Samples[:8]
 	}
-	ev := map[string]any{
-		"evaluations":         tot.Evaluations,
-		"distinct_nontrivial": tot.Nontrivial,
-		"rule":                s.Rule,
-		"samples":             tot.Samples,
-		"class_distribution":  tot.Tags,
-		"excluded_known":      tot.Excluded,
-		"replays_run":         len(tot.Replayed),
-		"shards":              shards,
-		"native_fuzz_runs":    fuzzRuns,
-		"exhaustive":          false,
-	}
-	if err := r.WriteEvidence(&Evidence{Coverage: ev, Assumptions: s.Assumptions}); err != nil {
-		return err
-	}
-	if tot.Nontrivial < 2 && len(r.violations) == 0 {
-		r.Infra("only %d non-trivial cases were explored", tot.Nontrivial)
-	}
-	return nil
+	return &tot, nil
 }
 
 // runNativeFuzz runs `go test -fuzz` for the target; a crasher is copied to replays/ and
